@@ -25,28 +25,39 @@ if __name__ == "__main__":      # `python -m vt.drive.history fresh ...`: textX 
         sys.path.insert(0, _repo)
 
 # --------------------------------------------------------------------------- the pool
+# The three grammars deliberately share textually identical regular expressions and
+# string literals in different roles, so that anything cached per regex / literal text
+# across metamodels (not only per metamodel) shows up as history dependence:
+#   /\d+/     ent: right-hand side of an assignment   imp: suppressed match   expr: body of a match rule
+#   /[a-z]+/  ent: right-hand side of an assignment   imp: separator modifier expr: body of a match rule
+#   ','       ent/imp: separator modifier             imp: suppressed match   expr: assignment rhs + separator
+# and every grammar is also built with ignore_case=True (option `icase`).
 GRAMMARS = {
     # entities with base types, references resolved by a provider that uses the
     # parser's `_instances` index and performs *nested loads* (same metamodel)
     # from inside the scope provider for names of the form <lib>_<name>
     "ent": r"""
 Model: 'model' name=ID items+=Item;
-Item: 'item' name=ID ('=' val=BASETYPE)? ('#' num=NUMBER)? ('~' flt=FLOAT)?
+Item: 'item' name=ID ('=' val=BASETYPE)? ('#' num=NUMBER)? ('~' flt=FLOAT)? ('@' code=/\d+/ tag=/[a-z]+/)?
       ('->' refs+=[Item][','])? ('=>' one=[Item])? ';';
 Comment: /\/\/.*$/;
 """,
     # importURI: further files are loaded by the ModelLoader scope provider
     "imp": r"""
 Model: imports*=Import things*=Thing;
-Import: 'import' importURI=STRING ';';
-Thing: 'thing' name=ID ('uses' uses+=[Thing|FQN][','])? ('{' things+=Thing '}')?;
+Import: 'import' importURI=STRING (','- 'weak')? ';';
+Thing: (/\d+/- ':')? 'thing' name=ID ('[' tags+=INT[/[a-z]+/] ']')?
+       ('uses' uses+=[Thing|FQN][','])? ('{' things+=Thing '}')?;
 FQN: ID('.'ID)*;
 Comment: /#.*$/;
 """,
     # parser modifiers, predicates, unordered group, match rules, block comments
     "expr": r"""
 Prog: stmts+=Stmt;
-Stmt: Let | Print | Row | Opts;
+Stmt: Let | Print | Row | Opts | Tup;
+Tup: 'tup' x=Digits c=',' y=Digits unit=Unit ';';
+Digits: /\d+/;
+Unit: /[a-z]+/;
 Let: 'let' name=ID '=' e=Sum ';';
 Sum: l=Term (ops+=AddOp rs+=Term)*;
 AddOp: '+' | '-';
@@ -64,7 +75,7 @@ Comment: /\/\*(.|\n)*?\*\//;
 """,
 }
 EXT = {"ent": ".ent", "imp": ".imp", "expr": ".expr"}
-OPTIONS = ["plain", "memo", "classes", "procs", "grepo"]
+OPTIONS = ["plain", "memo", "classes", "procs", "grepo", "icase"]
 
 # inputs: text plus an abstract description.  History.tla is told `defs` (names
 # the text defines, i.e. what a parser's _instances index holds after the load)
@@ -76,14 +87,14 @@ OPTIONS = ["plain", "memo", "classes", "procs", "grepo"]
 INPUTS = {
     "ent": {
         "valid": dict(text="""model m1 // first
-item a = 5 # 1.5 ~ 2.5;
+item a = 5 # 1.5 ~ 2.5 @ 42 px;
 item b = "text" -> a;
 item c = true # 7 -> a, b => b;
 item d = word ~ 3;
 """, syn=True, defs=["a", "b", "c", "d"], refs=["a", "b"], trig=False, pre="none"),
         "valid2": dict(text="""model m2
 item x = 10 -> good_p, x;
-item y = 'q' # -2.5e3 => good_q; // nested load of a library
+item y = 'q' # -2.5e3 @ 7 em => good_q; // nested load of a library
 """, syn=True, defs=["x", "y", "good_p", "good_q"], refs=["good_p", "x", "good_q"], trig=False, pre="none"),
         "syntax": dict(text="""model m3
 item a = 5 # 1.5;
@@ -96,7 +107,7 @@ item z -> x, a;
 """, syn=True, defs=["x", "z"], refs=["x", "a"], trig=False, pre="none"),
         "boom": dict(text="""model m5
 item a = "s";
-item boom = 3 -> a;
+item boom = 3 @ 0 x -> a;
 item e => boom;
 """, syn=True, defs=["a", "boom", "e"], refs=["a", "boom"], trig=True, pre="none"),
         "nestbad": dict(text="""model m6
@@ -105,25 +116,25 @@ item w -> a, bad_p;
 """, syn=True, defs=["a", "w"], refs=["a", "bad_p"], trig=False, pre="syntax"),
     },
     "imp": {
-        "valid": dict(text="""import "lib.imp"; # uses a library
-thing a uses base, base.inner { thing a1 uses a }
-thing b uses a.a1, other
+        "valid": dict(text="""import "lib.imp", weak; # uses a library
+thing a [1 and 2 or 3] uses base, base.inner { thing a1 uses a }
+10: thing b uses a.a1, other
 """, syn=True, defs=["a", "a.a1", "b", "base", "base.inner", "other"],
                       refs=["base", "base.inner", "a", "a.a1", "other"], trig=False, pre="none"),
-        "noimp": dict(text="""thing p { thing q uses p }
-thing r uses p.q, p
+        "noimp": dict(text="""7: thing p [4] { thing q uses p }
+thing r [5 x 6] uses p.q, p
 """, syn=True, defs=["p", "p.q", "r"], refs=["p", "p.q"], trig=False, pre="none"),
         "syntax": dict(text="""import "lib.imp";
 thing a uses base
 thing { }
 """, syn=False, defs=["a"], refs=["base"], trig=False, pre="none"),
         "unknown": dict(text="""import "lib.imp";
-thing p uses base
-thing c uses p, a
+20: thing p uses base
+thing c [8] uses p, a
 """, syn=True, defs=["p", "c", "base", "base.inner", "other"], refs=["base", "p", "a"], trig=False, pre="none"),
         "boom": dict(text="""import "lib.imp";
-thing a uses other
-thing boom uses a
+thing a [1 z 2] uses other
+30: thing boom uses a
 """, syn=True, defs=["a", "boom", "base", "base.inner", "other"], refs=["other", "a"], trig=True, pre="none"),
         "impbad": dict(text="""import "lib.imp";
 import "bad.imp";
@@ -138,12 +149,14 @@ let b = a + < some text > - -a;
 print a, b + 1, <x>;
 row 1 2 3
 row 4 5 | "s" 't'
+tup 3, 44 px;
 opts beta n 3 alpha;
 """, syn=True, defs=["a", "b"], refs=["a"], trig=False, pre="none"),
         "valid2": dict(text="""let q = 7;
 opts alpha;
 let r = q + q + 1e3; /* inline */
 row 9
+tup 0, 1 em;
 print r;
 """, syn=True, defs=["q", "r"], refs=["q", "r"], trig=False, pre="none"),
         "syntax": dict(text="""let a = 1 + 2.5;
@@ -156,6 +169,7 @@ print b;
 """, syn=True, defs=["q", "c"], refs=["q", "a", "b"], trig=False, pre="none"),
         "boom": dict(text="""let a = 1;
 let boom = a + 13;
+tup 13, 13 x;
 print boom;
 """, syn=True, defs=["a", "boom"], refs=["a", "boom"], trig=True, pre="none"),
     },
@@ -163,9 +177,9 @@ print boom;
 
 # library files next to the model files (loaded by nested / imported loads)
 LIBS = {
-    "ent": {"good.ent": "model lib\nitem p = 1;\nitem q = 2 -> p;\n",
+    "ent": {"good.ent": "model lib\nitem p = 1 @ 9 lib;\nitem q = 2 -> p;\n",
             "bad.ent": "model lib\nitem p = ;\n"},
-    "imp": {"lib.imp": "thing base { thing inner }\nthing other uses base.inner\n",
+    "imp": {"lib.imp": "1: thing base { thing inner }\nthing other [0 and 0] uses base.inner\n",
             "bad.imp": "thing base {\n"},
     "expr": {},
 }
@@ -184,7 +198,7 @@ CFGS = [f"{g}.{o}" for g in GRAMMARS for o in OPTIONS]
 def cfg_flags(cfg):
     g, o = cfg.split(".")
     return dict(grammar=g, memo=(o == "memo"), classes=(o == "classes"), procs=(o == "procs"),
-                grepo=(o == "grepo"), inst=(g == "ent"), debug=False)
+                grepo=(o == "grepo"), icase=(o == "icase"), inst=(g == "ent"), debug=False)
 
 
 def file_name(cfg, inp):
@@ -236,9 +250,9 @@ def _user_classes(grammar, counters):
         return type(name, (), {"__init__": __init__})
 
     if grammar == "ent":
-        return [mk("Model", ["name", "items"]), mk("Item", ["name", "val", "num", "flt", "refs", "one"])]
+        return [mk("Model", ["name", "items"]), mk("Item", ["name", "val", "num", "flt", "code", "tag", "refs", "one"])]
     if grammar == "imp":
-        return [mk("Thing", ["name", "uses", "things"])]
+        return [mk("Thing", ["name", "tags", "uses", "things"])]
     return [mk("Let", ["name", "e"]), mk("Sum", ["l", "ops", "rs"])]
 
 
@@ -305,6 +319,8 @@ def new_mm(cfg, workdir):
         kw["memoization"] = True
     if fl["grepo"]:
         kw["global_repository"] = True
+    if fl["icase"]:
+        kw["ignore_case"] = True
     mm = metamodel_from_str(GRAMMARS[g], **kw)
     live = Live(cfg, mm, classes, workdir)
     live.counters = counters
